@@ -76,7 +76,14 @@ func VH22a_patterns() {
 	verif.Quiesce()
 	n := verif.Choice("len", B+1)
 	body := verif.Bytes("body", n)
-	verif.Assert(tx.Send(body) == nil, lab+"/send")
+	{
+		// Send takes a copy: the caller's buffer is overwritten as soon as the call has returned
+		buf := append([]byte{}, body...)
+		verif.Assert(tx.Send(buf) == nil, lab+"/send")
+		for i := range buf {
+			buf[i] ^= 0x5A
+		}
+	}
 	verif.Quiesce()
 	verif.Assert(tx.Send([]byte{'S', 'E', 'N', 'T'}) == nil || pr.tx == "req", lab+"/send-sentinel")
 	verif.Quiesce()
